@@ -191,10 +191,14 @@ def length_problem(q, opt_len_only=False):
 
     from dask_expr._expr import Lengths
 
-    r = e2e.run_or_err(lambda: e2e.compute_partitions(q, optimize=False))
+    # "the computed data" = what compute() returns, i.e. the optimised plan (head/tail of sorted frames are
+    # legitimately answered differently by the optimised and the unoptimised plan: known finding D47)
+    r = e2e.run_or_err(lambda: e2e.compute_partitions(q, optimize=True))
     if r[0] == "err":
-        return None  # the query itself is not computable
-    parts = r[1]
+        return None  # the query itself is not computable (C01/C14)
+    parts = [p for p in r[1]]
+    if not all(isinstance(p, (pd.DataFrame, pd.Series)) for p in parts):
+        return None
     n = sum(len(p) for p in parts)
     whole = pd.concat(parts) if len(parts) else None
     rl = e2e.run_or_err(lambda: len(q))
@@ -287,6 +291,7 @@ DED_OPS = {
     "repart_more": lambda x, k: x.repartition(npartitions=x.npartitions + 3),
     "repart_one": lambda x, k: x.repartition(npartitions=1),
     "repart7": lambda x, k: x.repartition(npartitions=7),
+    "sort_repart": lambda x, k: x.sort_values("a").repartition(npartitions=x.npartitions + 1),
     "loc_slice": lambda x, k: x.loc[_loc_bounds(x)[0] : _loc_bounds(x)[1]],
     "loc_from": lambda x, k: x.loc[_loc_bounds(x)[0] :],
     "loc_list": lambda x, k: x.loc[[x.divisions[0], x.divisions[-1]]],
@@ -411,15 +416,17 @@ def run_case(case):
     if lg[0] == "ok":
         np_, nd = lg[1]
         top = type(q.expr).__name__
+        deps = q.expr.dependencies()
+        below = type(deps[0]).__name__ if deps else "-"
         if nd != np_ + 1:
-            return ({"check": "structure", "node": top, "what": "divisions-length"},
-                    f"logical {top}: npartitions={np_} but {nd} divisions")
+            return ({"check": "structure", "node": top, "below": below, "what": "divisions-length"},
+                    f"logical {top}({below}): npartitions={np_} but {nd} divisions")
         n_low = st[1][0][1].npartitions
         from dask_expr.io.io import FusedIO  # noqa: F401  (tune-stage fusion changes counts only in optimised stages)
 
         if n_low != np_:
-            return ({"check": "structure", "node": top, "what": "npartitions"},
-                    f"logical {top}: npartitions={np_}, its lowered plan has {n_low} partitions")
+            return ({"check": "structure", "node": top, "below": below, "what": "npartitions"},
+                    f"logical {top}({below}): npartitions={np_}, its lowered plan has {n_low} partitions")
     for stage, e in st[1]:
         pr = plan_problem(e)
         if pr:
@@ -551,6 +558,8 @@ MUST_RUN = [
     {"kind": "rowcount", "source": "from_pandas", "chain": "binop_filters", "P": None},        # Len(x + y) = Len(x)
     {"kind": "dedicated", "index": "int", "npartitions": 4, "op": "set_index_parts_rev"},      # _SetIndexPost culling
     {"kind": "dedicated", "index": "int", "npartitions": 2, "op": "empty_cols"},               # Size of a frame without columns
+    {"kind": "dedicated", "index": "int", "npartitions": 4, "op": "sort_repart", "n": 8},       # Repartition above a sort
+    {"kind": "dedicated", "index": "int", "npartitions": 1, "op": "merge_index"},               # indexed merge, single-partition side
 ]
 
 
